@@ -58,6 +58,7 @@ type Oracles struct {
 	payloadAt           map[uint64]uint64
 	watched             map[uint64]string
 	bootstrapped        bool
+	cfgPrev             map[string]uint64 // "server/index" of a configuration entry appended by a leader -> index of the configuration it replaced
 	unconfirmedRestores map[string]int // user restores that replaced a server's state but have not returned nil
 	timeoutNows         map[string][]int64
 	termStart           map[string]uint64 // server/term -> first index it appended as leader of that term
@@ -484,6 +485,14 @@ func (o *Oracles) agreedStateAt(index uint64) (agreedCmd, bool) {
 	return o.agreed[i-1], true
 }
 
+// PrevCfgOfAppend: the index of the configuration that was the latest one in
+// srv's log when it appended, as leader, the configuration entry at index.
+// Caller holds W.Mu.
+func (o *Oracles) PrevCfgOfAppend(srv string, index uint64) (uint64, bool) {
+	p, ok := o.cfgPrev[fmt.Sprintf("%s/%d", srv, index)]
+	return p, ok
+}
+
 // checkLeaderAppend: C07(b) — a leader appends a configuration only after the
 // previous one is committed and after an entry of its own term is committed.
 func (o *Oracles) checkLeaderAppend(op *DiskOp) {
@@ -503,6 +512,10 @@ func (o *Oracles) checkLeaderAppend(op *DiskOp) {
 		commit := in.R.CommitIndex()
 		// previous configuration in this log / snapshot
 		_, prevIdx := LatestCfgInDisk(d, false)
+		if o.cfgPrev == nil {
+			o.cfgPrev = map[string]uint64{}
+		}
+		o.cfgPrev[fmt.Sprintf("%s/%d", in.ID(), l.Index)] = prevIdx
 		if prevIdx > commit {
 			o.w.violate("C07", "R2", "C07/R2/config-appended-before-previous-committed",
 				"%s (term %d) appends configuration at %d while its previous configuration at %d is above its commit index %d", in.ID(), l.Term, l.Index, prevIdx, commit)
